@@ -683,6 +683,12 @@ def run(ctx):
                        no_input=True)
     elif not info["ok"]:
         vlib.violation(ctx, {"broken": info["reason"], "theorem": "props/C18.v"}, no_input=True)
+    elif ctx.tier == "thorough":
+        okc, outc = vlib.coqchk("C18")
+        coqchk_note = "coqchk ok" if okc else "coqchk FAILED"
+        ctx.log(coqchk_note)
+        if not okc:
+            vlib.violation(ctx, {"broken": "coqchk rejected DDProps.C18: " + outc[-600:]}, no_input=True)
     if d6_trees:
         d6_trees.sort(key=lambda x: len(text_of[x[0]]))
         cid, hits = d6_trees[0]
